@@ -213,8 +213,8 @@ def rulesEmpty : SRules → Bool
   | .nil => true
   | .cons .. => false
 
-/-- `do_CSSStyleSheet` -/
-def canon (s : SSheet) : SSheet :=
+/-- `do_CSSStyleSheet` for a sheet all of whose rules are written (`prune s = s`) -/
+def canonV (s : SSheet) : SSheet :=
   let moreN := !s.namespaces.isEmpty || !rulesEmpty s.rules
   let more := !s.imports.isEmpty || moreN
   { charset := s.charset.map fun c => (.dq, c.2),
@@ -222,6 +222,56 @@ def canon (s : SSheet) : SSheet :=
     imports := layStmts canonImp moreN s.imports,
     namespaces := layStmts canonNs (!rulesEmpty s.rules) s.namespaces,
     rules := canonRules 0 false s.rules }
+
+/-! ## rules that serialise to nothing (`keepEmptyRules = False`, the default)
+
+`do_CSSStyleRule` / `do_CSSFontFaceRule` return `''` when the declaration block has no item (`:779-786`, `:470-491`),
+`do_MarginRule` when it has no declaration (`:675-716`), `do_CSSPageRule` when there is neither a declaration-block item
+nor a written margin box (`:659`), `do_CSSMediaRule` when no nested rule is written (`:606-608`); `do_CSSStyleSheet`
+skips empty texts (`:425-427`).  Comments and unknown at-rules are always written. -/
+
+def blockEmpty (b : SBlock) : Bool := (realItems b).isEmpty
+
+def marginEmpty (b : SBlock) : Bool :=
+  (keptDecls b.items ++ (b.last.map fun d => SItem.decl (bareDecl d)).toList).isEmpty
+
+/-- the items of a page block without the margin boxes that are not written -/
+def pruneMargins : List (SPageItem × WGap) → List (SPageItem × WGap)
+  | [] => []
+  | (.margin n kw g b, w) :: rest =>
+    if marginEmpty b then pruneMargins rest else (.margin n kw g b, w) :: pruneMargins rest
+  | (.item i, w) :: rest => (.item i, w) :: pruneMargins rest
+
+def prunePageBlock (b : SPageBlock) : SPageBlock := { b with items := pruneMargins b.items }
+
+def pageEmpty (b : SPageBlock) : Bool :=
+  (pagePlain b.items ++ (b.last.map SItem.decl).toList).isEmpty && (pageMargins 0 b.items).isEmpty
+
+mutual
+def pruneRule : SRule → Option SRule
+  | .comment b => some (.comment b)
+  | .style sel blk => if blockEmpty blk then none else some (.style sel blk)
+  | .unknown t => some (.unknown t)
+  | .media kw g1 mq g2 lead rules =>
+    match pruneRules rules with
+    | .nil => none
+    | .cons r w rest => some (.media kw g1 mq g2 lead (.cons r w rest))
+  | .fontface kw g1 blk => if blockEmpty blk then none else some (.fontface kw g1 blk)
+  | .page kw g0 sel g1 blk =>
+    if pageEmpty (prunePageBlock blk) then none else some (.page kw g0 sel g1 (prunePageBlock blk))
+def pruneRules : SRules → SRules
+  | .nil => .nil
+  | .cons r w rest =>
+    match pruneRule r with
+    | none => pruneRules rest
+    | some r' => .cons r' w (pruneRules rest)
+end
+
+/-- the sheet without the rules that are not written -/
+def prune (s : SSheet) : SSheet := { s with rules := pruneRules s.rules }
+
+/-- `do_CSSStyleSheet`: the spelling the serializer gives to the sheet parsed from `s` -/
+def canon (s : SSheet) : SSheet := canonV (prune s)
 
 /-- the tokens of `sheet.cssText` for the sheet parsed from `render s` -/
 def serialise (s : SSheet) : List Tok := render (canon s)
